@@ -329,5 +329,5 @@ class KVApp(object):
         name = self.idmap.get(fid, fid)
         if any(isinstance(a, tuple) and len(a) == 2 and a[0] == '__unloadable__' for a in args):
             # the command raises while the library decodes it: for the reference it is a raising command
-            return ('regular', 'boom', (args[0],), {})
+            return ('regular', 'boom', (args[0],), {'__unloadable__': True})
         return ('regular', name, args, kwargs)
